@@ -10,6 +10,7 @@ GENERATORS = [
     (hist.g_membrane_method, 8), (hist.g_thermo, 5), (hist.g_composition_convert, 3), (hist.g_permeance_op, 3),
     (hist.g_component_method, 3), (hist.g_program, 2), (hist.g_measurements_from, 4), (hist.g_fit, 9), (hist.g_fit_vle, 1),
     (hist.g_fn_op, 6), (hist.g_make_curve, 4), (hist.g_curve_metric, 5), (hist.g_pool_measurements, 2),
+    (hist.g_new_mixture, 2), (hist.g_load_membrane, 3),
 ]
 
 
